@@ -465,6 +465,9 @@ pub struct Scanner<'input, T> {
     buf_leading_break: String,
     buf_trailing_breaks: String,
     buf_whitespaces: String,
+    /// Verification hook: a token sequence to hand out instead of scanning (Kani harnesses only).
+    #[cfg(kani)]
+    pub(crate) verif_inject: Option<verif_harness::Inject>,
 }
 
 impl<'input, T: Input> Iterator for Scanner<'input, T> {
@@ -521,6 +524,8 @@ impl<'input, T: Input> Scanner<'input, T> {
             buf_leading_break: String::new(),
             buf_trailing_breaks: String::new(),
             buf_whitespaces: String::new(),
+            #[cfg(kani)]
+            verif_inject: None,
         }
     }
 
@@ -745,6 +750,10 @@ impl<'input, T: Input> Scanner<'input, T> {
     pub fn next_token(&mut self) -> Result<Option<Token<'input>>, ScanError> {
         if self.stream_end_produced {
             return Ok(None);
+        }
+        #[cfg(kani)]
+        if self.verif_inject.is_some() {
+            return self.verif_next_injected();
         }
 
         if !self.token_available {
@@ -2633,3 +2642,7 @@ mod test {
         assert!(is_anchor_char('x'));
     }
 }
+
+#[cfg(kani)]
+#[path = "/verif/kani/direct/scanner_harness.rs"]
+pub(crate) mod verif_harness;
